@@ -1,5 +1,6 @@
 import Propka.Props.C16
 import Propka.Model.Iterative
+import Propka.Proofs.Componentwise
 import Mathlib.Algebra.Order.Field.Rat
 /-! # C05 — parts of a structure beyond interaction range do not influence each other
 
@@ -8,7 +9,8 @@ cut-off, the accumulation loops skip far atoms without touching their accumulato
 scalar, floats included), and one step of the iterative scheme reads only the two groups of the
 interaction it processes.  The global stopping rule of the iterative scheme is *not* local:
 `iter_leak_counterexample` decides a four-group system whose result changes when an unrelated
-pair is added (known finding D11). -/
+pair is added (known finding D11); `iterate_componentwise` shows that the number of global iterations is
+the only thing unrelated clusters share. -/
 namespace Propka.Energy
 
 /-- far atoms (at or beyond both cut-offs) are skipped by the desolvation loop: dropping them from the
@@ -85,11 +87,125 @@ theorem pkaNew_local (gs : Array (IGroup ℚ)) (d1 d2 : List (Det ℚ)) (i : Nat
   simp only
   rw [key .sidechain d1, key .sidechain d2, h, key .coulomb d1, key .coulomb d2, h]
 
+/-! ### the iterative scheme acts componentwise; only the number of iterations is shared -/
+section
+variable (inS : Nat → Bool)
+
+/-- the relation between the state of the whole system and the state of the sub-system `S` run alone -/
+structure Rel (inters : List (Inter ℚ)) (s s' : State ℚ) : Prop where
+  len : s.ann.length = inters.length
+  ann : s'.ann = (subZ inS (inters.zip s.ann)).map (·.2)
+  old : ∀ i, inS i = true → s.old.getD i 0 = s'.old.getD i 0
+  dets : ∀ i, inS i = true → s.dets.filter (fun d => d.owner = i) = s'.dets.filter (fun d => d.owner = i)
+
+/-- one global iteration acts on a closed sub-system exactly as it does when that sub-system is iterated alone -/
+theorem iterate_rel (minV : ℚ) (gs : Array (IGroup ℚ)) (inters : List (Inter ℚ))
+    (closed : ∀ it ∈ inters, inS it.g1 = inS it.g2) (s s' : State ℚ) (h : Rel inS inters s s') :
+    Rel inS inters (iterate minV gs inters s) (iterate minV gs (inters.filter fun it => inS it.g1) s') := by
+  obtain ⟨hlen, hann, hold, _⟩ := h
+  have hz : (inters.filter fun it => inS it.g1).zip s'.ann = subZ inS (inters.zip s.ann) := by
+    rw [hann]; exact zip_sub inS inters s.ann hlen
+  -- on the sub-system the two runs take the same steps
+  have hstep : ∀ p ∈ subZ inS (inters.zip s.ann),
+      interStep minV gs s'.old p.1 p.2 = interStep minV gs s.old p.1 p.2 := by
+    intro p hp
+    unfold subZ at hp
+    rw [List.mem_filter] at hp
+    have hmem : p.1 ∈ inters := (List.of_mem_zip hp.1).1
+    have h1 : inS p.1.g1 = true := hp.2
+    have h2 : inS p.1.g2 = true := by rw [← closed _ hmem]; exact h1
+    exact interStep_local minV gs gs s'.old s.old p.1 p.2 rfl rfl (hold _ h1).symm (hold _ h2).symm
+  have hrs : ((inters.filter fun it => inS it.g1).zip s'.ann).map (fun p => interStep minV gs s'.old p.1 p.2) =
+      (subZ inS (inters.zip s.ann)).map (fun p => interStep minV gs s.old p.1 p.2) := by
+    rw [hz]; exact List.map_congr_left hstep
+  have hdets : ∀ i, inS i = true →
+      (iterate minV gs inters s).dets.filter (fun d => d.owner = i) =
+      (iterate minV gs (inters.filter fun it => inS it.g1) s').dets.filter (fun d => d.owner = i) := by
+    intro i hi
+    unfold iterate
+    simp only [hrs, List.flatMap_map]
+    exact filter_flatMap_sub inS (inters.zip s.ann) _ i hi
+      (fun p hp => closed _ (List.of_mem_zip hp).1)
+      (fun p _ d hd => interStep_owners minV gs s.old p.1 p.2 d hd)
+  refine ⟨?_, ?_, ?_, hdets⟩
+  · unfold iterate
+    simp only [List.length_map, List.length_zip, hlen, Nat.min_self]
+  · unfold iterate
+    simp only [hrs, List.map_map]
+    exact (sub_map_zip inS inters s.ann hlen _).symm
+  · intro i hi
+    have hd := hdets i hi
+    have hp := pkaNew_local gs _ _ i hd
+    unfold iterate at hp ⊢
+    simp only at hp ⊢
+    by_cases hlt : i < gs.size
+    · simp [Array.getD, hlt, hp]
+    · simp [Array.getD, hlt]
+
+/-- … and so does any number of global iterations -/
+theorem iterN_rel (minV : ℚ) (gs : Array (IGroup ℚ)) (inters : List (Inter ℚ))
+    (closed : ∀ it ∈ inters, inS it.g1 = inS it.g2) (k : Nat) (s s' : State ℚ) (h : Rel inS inters s s') :
+    Rel inS inters (iterN minV gs inters k s) (iterN minV gs (inters.filter fun it => inS it.g1) k s') := by
+  induction k generalizing s s' with
+  | zero => exact h
+  | succ n ih => exact ih _ _ (iterate_rel inS minV gs inters closed s s' h)
+
+theorem init_rel (gs : Array (IGroup ℚ)) (inters : List (Inter ℚ)) :
+    Rel inS inters (initState gs inters) (initState gs (inters.filter fun it => inS it.g1)) := by
+  refine ⟨by simp [initState], ?_, fun _ _ => rfl, fun _ _ => rfl⟩
+  simp only [initState]
+  induction inters with
+  | nil => simp [subZ]
+  | cons x xs ih =>
+    unfold subZ at ih ⊢
+    simp only [List.map_cons, List.zip_cons_cons, List.filter_cons]
+    by_cases hx : inS x.g1 = true
+    · simp only [hx, if_true, List.map_cons, ih]
+    · simp only [hx, Bool.false_eq_true, if_false, ih]
+
+/-- **Componentwise iteration.**  If every iterative interaction lies inside `S` or outside it, then after
+    the same number `k` of global iterations every group of `S` has the same pKa and owns the same
+    determinants in the whole system as in `S` run alone.  The iterative scheme couples unrelated clusters
+    through nothing but the number of iterations (the stopping rule: finding D11). -/
+theorem iterate_componentwise (minV : ℚ) (gs : Array (IGroup ℚ)) (inters : List (Inter ℚ))
+    (closed : ∀ it ∈ inters, inS it.g1 = inS it.g2) (k i : Nat) (hi : inS i = true) :
+    let whole := iterN minV gs inters k (initState gs inters)
+    let alone := iterN minV gs (inters.filter fun it => inS it.g1) k (initState gs (inters.filter fun it => inS it.g1))
+    whole.old.getD i 0 = alone.old.getD i 0 ∧
+    whole.dets.filter (fun d => d.owner = i) = alone.dets.filter (fun d => d.owner = i) ∧
+    pkaNew gs (whole.dets.filter fun d => decide (minV < d.value) || decide (d.value < -minV)) i =
+      pkaNew gs (alone.dets.filter fun d => decide (minV < d.value) || decide (d.value < -minV)) i := by
+  have h := iterN_rel inS minV gs inters closed k _ _ (init_rel inS gs inters)
+  refine ⟨h.old i hi, h.dets i hi, pkaNew_local gs _ _ i ?_⟩
+  rw [List.filter_filter, List.filter_filter]
+  have := congrArg (List.filter fun d => decide (minV < d.value) || decide (d.value < -minV)) (h.dets i hi)
+  rw [List.filter_filter, List.filter_filter] at this
+  simpa [Bool.and_comm] using this
+
+/-- the solver stops the whole system after some `k ≤ 10` iterations; what it then reports for a group of a
+    closed sub-system is what that sub-system reports after the same `k` iterations.  (Full locality would
+    need `k` to be the sub-system's own stopping time; `iter_leak_counterexample` shows it need not be.) -/
+theorem solve_componentwise_partial (minV : ℚ) (gs : Array (IGroup ℚ)) (inters : List (Inter ℚ))
+    (closed : ∀ it ∈ inters, inS it.g1 = inS it.g2) (i : Nat) (hi : inS i = true) :
+    ∃ k, 1 ≤ k ∧ k ≤ 10 ∧ total minV gs inters i =
+      pkaNew gs ((iterN minV gs (inters.filter fun it => inS it.g1) k
+        (initState gs (inters.filter fun it => inS it.g1))).dets.filter
+          fun d => decide (minV < d.value) || decide (d.value < -minV)) i := by
+  obtain ⟨k, hk, hk0, he⟩ := solveLoop_eq_iterN minV gs inters 10 (initState gs inters)
+  refine ⟨k, Nat.one_le_iff_ne_zero.mpr (hk0 (by decide)), hk, ?_⟩
+  unfold total solve
+  rw [he]
+  exact (iterate_componentwise inS minV gs inters closed k i hi).2.2
+end
+
 /-! ### the stopping rule is global: a decided counter-example (known finding D11) -/
 def gA : Array (IGroup ℚ) := #[⟨1, 11, false⟩, ⟨-1, 21/2, false⟩, ⟨1, 21/2, false⟩, ⟨-1, 9/2, false⟩]
 def iA : List (Inter ℚ) := [⟨2, 0, 0, 1⟩, ⟨2, 1, 0, 1⟩, ⟨3, 1, 0, 1⟩]
 def gAB : Array (IGroup ℚ) := gA ++ #[⟨-1, 4, false⟩, ⟨-1, 5, false⟩]
 def iAB : List (Inter ℚ) := iA ++ [⟨5, 4, 1/2, 1⟩]
+
+/-- the hypotheses of `iterate_componentwise` are met by the counter-example: cluster A (groups 0-3) is closed in A+B -/
+example : ∀ it ∈ iAB, (fun i => decide (i < 4)) it.g1 = (fun i => decide (i < 4)) it.g2 := by decide
 
 /-- cluster A alone stops after one iteration (its pKa values happen not to move although its state
     is not a fixed point); next to an unrelated acid pair that needs more iterations it keeps
